@@ -235,10 +235,16 @@ RelMism(e) ==
 \* accessor sweep runs (all single-layer decoders, every accessor): no value prediction; the observable of
 \* C01/C02 is "no sub-slice outside the input, same digest at both guard-page placements, no panic"
 IsC02(n) == n \in {"c02.unbounded_iteration"}
+\* equality of decoded values depends on the location of the input / ignores contents (sweep:packet, per slice type)
+EqTypes == {"Ethernet2Slice", "Ethernet2HeaderSlice", "LinuxSllSlice", "LinuxSllHeaderSlice", "SingleVlanSlice", "SingleVlanHeaderSlice", "MacsecSlice",
+            "MacsecHeaderSlice", "ArpPacketSlice", "Ipv4Slice", "Ipv4HeaderSlice", "Ipv6Slice", "Ipv6HeaderSlice", "IpSlice", "LaxIpSlice", "IpAuthHeaderSlice",
+            "Ipv6FragmentHeaderSlice", "Ipv6RawExtHeaderSlice", "UdpSlice", "UdpHeaderSlice", "TcpSlice", "TcpHeaderSlice", "Icmpv4Slice", "Icmpv6Slice",
+            "SlicedPacket::from_ethernet", "SlicedPacket::from_ip", "LaxSlicedPacket::from_ethernet", "LaxSlicedPacket::from_ip"}
+IsC01(n) == n \in {"c01.eq_depends_on_location:" \o t : t \in EqTypes} \cup {"c01.eq_ignores_contents:" \o t : t \in EqTypes}
 SweepMism(x) == (IF x.res.v = "panic" THEN {"panic"} ELSE {}) \cup (IF x.res.oob # 0 THEN {"oob"} ELSE {}) \cup (IF x.pl # 1 THEN {"placement"} ELSE {})
                 \* two doors to the same decoder (deprecated aliases, helper predicates) that did not give the same answer
                 \* (names that start with c02. are totality violations found by the sweep itself: an iterator that does not stop)
-                \cup (IF x.res.v = "panic" THEN {} ELSE {IF IsC02(x.res.conv.mism[i]) THEN x.res.conv.mism[i] ELSE "c06.alias." \o x.res.conv.mism[i] : i \in 1..Len(x.res.conv.mism)})
+                \cup (IF x.res.v = "panic" THEN {} ELSE {IF IsC02(x.res.conv.mism[i]) \/ IsC01(x.res.conv.mism[i]) THEN x.res.conv.mism[i] ELSE "c06.alias." \o x.res.conv.mism[i] : i \in 1..Len(x.res.conv.mism)})
 
 RefMism(e) ==
   UNION { LET x == e.runs[i] IN
